@@ -208,6 +208,14 @@ def _judge(case: dict[str, Any], vec: list[str], rnd: dict[str, Any], rec: Any, 
     if res is None:
         rec.violation("no-result-for-processed-request", w)
         return
+    if isinstance(res, OutOfBounds):
+        # the request sits exactly on the advertised exclusion bound; advertised (per-group sums) and enforced
+        # (sums over all components) add the same numbers in different orders: last-ulp sliver, counted
+        b = res.bounds
+        for edge in (b.exclusion_lower, b.exclusion_upper):
+            if edge != 0 and abs(p - edge) <= 1e-9 * max(1.0, abs(edge)):
+                rec.count("request-on-exclusion-bound-in-ulp-sliver")
+                return
     if isinstance(res, (Error, OutOfBounds)):
         if first and (case["kind"] == "pv" or abs(p) > 0):
             # in-domain request with complete healthy data must not be refused
